@@ -355,17 +355,27 @@ def geometry_rule(ctx, rr, with_c, sink=None):
 def r02_2(ctx, rr):
     F = ctx.F()
     b = F.one(r"^rank_sel::select_adapt::SpanType::from_span$")
-    m = [n for n in walk(b.body) if n.get("k") == "Match"]
-    if len(m) != 1:
-        raise AnchorMissing("SpanType::from_span: expected one match")
+    import astnorm
     arms = []
-    for a in m[0]["arms"]:
-        p = a["pat"]
-        ty = show(F, a["body"]).split("::")[-1]
-        if p.get("k") == "PRange":
-            arms.append((int(p["lo"]["v"]), int(p["hi"]["v"]) + (0 if p.get("incl") else -1), ty))
-        elif p.get("k") == "PWild":
-            arms.append((None, None, ty))
+    chains = [astnorm.int_classes(n) for n in walk(b.body) if n.get("k") == "If"]
+    chains = [c for c in chains if c and len(c) >= 3]
+    m = [n for n in walk(b.body) if n.get("k") == "Match"]
+    if chains:
+        def _ty(body):
+            while body.get("k") == "Block" and not body.get("stmts") and "expr" in body:
+                body = body["expr"]
+            return show(F, body).split("::")[-1]
+        arms = [(lo, hi, _ty(body)) for lo, hi, body in max(chains, key=len)]
+    elif len(m) == 1:
+        for a in m[0]["arms"]:
+            p = a["pat"]
+            ty = show(F, a["body"]).split("::")[-1]
+            if p.get("k") == "PRange":
+                arms.append((int(p["lo"]["v"]), int(p["hi"]["v"]) + (0 if p.get("incl") else -1), ty))
+            elif p.get("k") == "PWild":
+                arms.append((None, None, ty))
+    else:
+        raise AnchorMissing("SpanType::from_span: expected one match on ranges or one if-chain on the span")
     rr.instances += 1
     ok = len(arms) == 3 and arms[0][2] == "U16" and arms[1][2] == "U32" and arms[2][2] == "U64" and arms[0][0] == 0
     rr.check(ok, "SpanType::from_span:arms", "from_span must have arms U16, U32, U64 in increasing order starting at 0; found %s" % arms, b.span)
